@@ -195,6 +195,9 @@ def build(modname):
     emit('imported', modname, _resume_layer())
     if WORLD.get('die_import') and _resume_layer():
         _die(WORLD['die_import'])
+    if WORLD.get('import_raise_in_child') and _resume_layer():
+        # the module loads in the parent but not in a layer subprocess (a lock file, a port in use, …)
+        raise ImportError('scripted import failure inside the layer subprocess')
     for idx, L in enumerate(WORLD['layers']):
         bases = [layers[b] for b in L['bases']]
         d = {}
